@@ -160,6 +160,9 @@ func enumBig(shard, shards int, tier string, yield func(Case) bool) {
 				return
 			}
 		}
+		if !emit("random", d, 3) || !emit("lag", d, 2) { // few keys/classes: groups with very many members
+			return
+		}
 	}
 	for _, d := range reduced {
 		for _, shape := range []string{"twice", "random", "early-heavy"} {
@@ -167,7 +170,7 @@ func enumBig(shard, shards int, tier string, yield func(Case) bool) {
 				return
 			}
 		}
-		if !emit("lag", d, d/2+2) {
+		if !emit("lag", d, d/2+2) || !emit("random", d, 3) {
 			return
 		}
 	}
@@ -199,7 +202,7 @@ var specBig = pbt.Register(&pbt.Spec[Case]{
 	Rule: "long slices with d distinct values. Enumerated: d in {p-1, p, p+1, 1.5p} for every power of two p in 8..256 (thorough: ..2048) and d = p+1 for " +
 		"p up to 4096 (thorough: 8192) x arrangements (0..d-1 twice; every value doubled; every value repeated right after its successor's first appearance; " +
 		"ascending then descending; 2d+3 pseudo-random draws; 0..d-1 followed by the last three values and the first one; one value recurring after every five new ones) " +
-		"x modulus m in {d+1 (every value its own key/class), d/2+1 (keys with several distinct members)}; values as they are, MaxInt-v, MinInt+v or v<<32 in turn; " +
+		"x modulus m in {d+1 (every value its own key/class), d/2+1 (keys with several distinct members)}, plus m = 3 and 2 (few groups with very many members); values as they are, MaxInt-v, MinInt+v or v<<32 in turn; " +
 		"exclude/unwanted list = every third value (+ the slice's end values); j in {n, n-1, n/2}; one case in four with nested calls. " +
 		"rapid: p drawn from 8..256, d in p-2..1.5p, n in d+1..2d+8 random values below d with an ascending prefix of random length, m in {d+1, d/2+1, random}, same transforms. " + sliceRule,
 	Enum: enumBig, Gen: genBig, Run: Run, Quick: 400, Thorough: 3000, CaseCPU: 0,
